@@ -29,8 +29,9 @@ func GrammarF1() *gen.Grammar {
 // F2: error bookkeeping — try/catch, ?, //, ?//, error.
 func GrammarF2() *gen.Grammar {
 	return &gen.Grammar{
-		Name:  "F2-errors",
-		Atoms: gen.Atoms(".", "1", "null", "empty", "error", `error("x")`, ".[]", ".a", "false", "error(null)"),
+		Name:    "F2-errors",
+		Prelude: "null as $a | null as $b | ",
+		Atoms:   gen.Atoms(".", "1", "null", "empty", "error", `error("x")`, ".[]", ".a", "false", "error(null)", "$a", "$b"),
 		Forms: []gen.Form{
 			gen.Pipe, gen.Comma, gen.Alt,
 			gen.T("try", "try %0", 1, term),
@@ -40,6 +41,29 @@ func GrammarF2() *gen.Grammar {
 			gen.TL("destalt", ". as [$a] ?// $a | %0", 1, pipe),
 			gen.TL("destalt2", "%0 as [$a] ?// $b | %1", 2, pipe, term),
 			gen.Plus,
+		},
+	}
+}
+
+// F5: destructuring with alternatives — variables bound before an alternative fails,
+// errors in the body, variables that only some alternatives bind.
+func GrammarF5() *gen.Grammar {
+	return &gen.Grammar{
+		Name:    "F5-destructuring",
+		Prelude: "null as $a | null as $b | null as $c | ",
+		Atoms: gen.Atoms(".", "$a", "$b", "$c", "[$a,$b,$c]", "error", "empty", "[1,[2]]", "[1,2]", `{"a":1,"b":[2]}`, `{"a":1,"b":2}`,
+			"(if $c == null then error else . end)", "(if $b == null then error else . end)", ".[]?"),
+		Forms: []gen.Form{
+			gen.Pipe, gen.Comma,
+			gen.TL("alt2", "%0 as [$a, [$b]] ?// $c | %1", 2, pipe, term),
+			gen.TL("alt3", "%0 as {a: $a, b: [$b]} ?// [$a] ?// $c | %1", 2, pipe, term),
+			gen.TL("altsame", "%0 as [$a] ?// $a | %1", 2, pipe, term),
+			gen.TL("altab", "%0 as [$a] ?// $b | %1", 2, pipe, term),
+			gen.TL("arr", "%0 as [$a, $b] | %1", 2, pipe, term),
+			gen.TL("obj", "%0 as {a: $a, $b} | %1", 2, pipe, term),
+			gen.TL("objkey", "%0 as {(%1): $c} | [$c]", 2, pipe, term),
+			gen.T("array", "[%0]", 1),
+			gen.T("try", "try %0 catch %1", 2, term, term),
 		},
 	}
 }
@@ -144,6 +168,7 @@ var TowerContexts = []string{
 	"try (%) catch .", "try error catch (%)", "reduce (%) as $x (0; . + 1)", "reduce .[]? as $x (%; .)", "reduce (1,2) as $x (0; %)",
 	"foreach (1,2) as $x (0; %; .)", "foreach (1,2) as $x (0; . + 1; %)", "label $l | (%)", "first(%)", "limit(2; %)", "isempty(%)", "path(%)",
 	"[%]", "{a: (%)}", "{(%): 1}", `"\(%)"`, "g(%)", "h(%)", "(%) as $x | [$x]", "1 as $x | (%)", "(%) as [$a] | $a", "(%) as [$a] ?// $a | [$a]",
+	"(%) as [$a, [$b]] ?// $c | [$a, $b, $c]", "[[1,2]] | .[] as [$a] ?// $b | (%) | [$a, $b]",
 	"(%)?", "(%) // 1", "1 // (%)", "if (%) then 1 else 2 end", "if . then (%) else 3 end", "-(%)", "(%) | .", ". | (%)", "(%), 3", "3, (%)",
 	"def k: (%); k", "(%) + 1", "1 + (%)", ".[%]?", "(%) |= 1", ". |= (%)", "limit(%; 1, 2, 3)", "[.[]? | (%)]",
 }
